@@ -261,11 +261,17 @@ class Concat(Expr):
             ):
                 return
 
+            if self.axis == 0 and any(len(cols) == 0 for cols in columns_frame):
+                # with axis=0 every input contributes its rows, whatever columns
+                # are selected; an input without any of the selected columns
+                # still fills them with missing values (and changes their dtype)
+                return
+
             # with axis=1 every input contributes (outer) or restricts (inner)
             # the index labels and takes part in the alignment of the
             # partitions: an input none of whose columns are selected can only
             # be left out when the inputs need no re-alignment
-            droppable = self.axis == 0 or self._are_co_aligned_or_single_partition
+            droppable = self._are_co_aligned_or_single_partition
             frames = [
                 (
                     frame[cols]
@@ -276,6 +282,10 @@ class Concat(Expr):
                 for frame, cols in zip(self._frames, columns_frame)
                 if len(cols) > 0 or not droppable
             ]
+            if not frames:
+                # no column of any input is selected (e.g. only a column that
+                # is assigned afterwards): the inputs still carry the rows
+                return
             result = type(self)(
                 self.join,
                 self.ignore_order,
